@@ -441,3 +441,368 @@ Example nonvacuous :
   let d := final [] [] [DInsert (mkQ (mkT 1 2 3) None); VInsert (Some 9) (mkT 1 2 3); VInsert (Some 9) (mkT 4 5 6)] in
   NoDup d /\ length (union_triples N d) = 3%nat /\ length (dg_triples N N.eqb d (Some 9)) = 2%nat.
 Proof. vm_compute. repeat split; repeat constructor; simpl; intuition discriminate. Qed.
+
+(* ================= the widened alphabet ================= *)
+
+(* every view's own triples_matching is the filter of its triples *)
+Theorem hop_matching_is_filter d h sm pm om :
+  hop_matching d h sm pm om = filter (triple_matches N sm pm om) (hop_triples d h).
+Proof.
+  destruct h; simpl.
+  - apply union_query_is_filter.
+  - apply punion_query_is_filter.
+  - apply dg_query_is_filter.
+Qed.
+
+(* views of views: a graph seen as a dataset and viewed again as a graph *)
+Lemma filter_map_none_true (l : list tt) (f : tq -> bool) :
+  (forall t, f (mkQ t None) = true) -> filter f (map (fun t => mkQ t None) l) = map (fun t => mkQ t None) l.
+Proof. intros H. induction l as [|x l IH]; simpl; auto. rewrite H, IH. reflexivity. Qed.
+Lemma filter_map_none_false (l : list tt) (f : tq -> bool) :
+  (forall t, f (mkQ t None) = false) -> filter f (map (fun t => mkQ t None) l) = [].
+Proof. intros H. induction l as [|x l IH]; simpl; auto. rewrite H, IH. reflexivity. Qed.
+Lemma map_qt_gad (l : list tt) : map qt (map (fun t => mkQ t None) l) = l.
+Proof. rewrite map_map. simpl. apply map_id. Qed.
+
+Theorem gad_hop_collapse (l : list tt) :
+  hop_triples (gad_quads N l) HUnion = l
+  /\ hop_triples (gad_quads N l) (HGraph None) = l
+  /\ (forall g, hop_triples (gad_quads N l) (HGraph (Some g)) = [])
+  /\ (forall m, hop_triples (gad_quads N l) (HPUnion m) = if gdesc_g m None then l else []).
+Proof.
+  unfold hop_triples, gad_quads, union_triples, dg_triples, punion_triples, ds_quads_matching.
+  repeat split.
+  - apply map_qt_gad.
+  - rewrite filter_map_none_true; [apply map_qt_gad | reflexivity].
+  - intros g. rewrite filter_map_none_false; reflexivity.
+  - intros m. destruct (gdesc_g m None) eqn:E.
+    + rewrite filter_map_none_true; [apply map_qt_gad | intros t; simpl; assumption].
+    + rewrite filter_map_none_false; [reflexivity | intros t; simpl; assumption].
+Qed.
+
+(* contains through a view (the provided method, on the view's triples_matching) is membership *)
+Lemma existsb_filter_nil {A} (f : A -> bool) l : negb (is_nil (filter f l)) = existsb f l.
+Proof. induction l as [|x l IH]; simpl; auto. destruct (f x); simpl; auto. Qed.
+
+Lemma one_of_single x y : mdesc_t (MOneOf [x]) y = N.eqb y x.
+Proof. simpl. apply orb_false_r. Qed.
+
+Lemma existsb_ext' {A} (f g : A -> bool) l : (forall x, f x = g x) -> existsb f l = existsb g l.
+Proof. intros H. induction l as [|x l IH]; simpl; auto. rewrite H, IH. reflexivity. Qed.
+
+Theorem gobs_contains_member pl d h t :
+  gobs_eval pl d h (GOContains t) = OFlag (gr_contains N N.eqb (hop_triples d h) t).
+Proof.
+  simpl. f_equal. rewrite hop_matching_is_filter, existsb_filter_nil. unfold gr_contains.
+  apply existsb_ext'. intros x. unfold triple_matches, triple_eqb.
+  rewrite !orb_false_r, (N.eqb_sym (ts x)), (N.eqb_sym (tp x)), (N.eqb_sym (to_ x)). reflexivity.
+Qed.
+
+Theorem dobs_contains_member pl d q :
+  dobs_eval pl d (DOContains q) = OFlag (ds_contains N N.eqb d q).
+Proof.
+  simpl. f_equal. unfold ds_quads_matching. rewrite existsb_filter_nil. unfold ds_contains.
+  apply existsb_ext'. intros x. unfold triple_matches, quad_eqb, triple_eqb, one_g, gname_eqb.
+  rewrite !orb_false_r, (N.eqb_sym (ts (qt x))), (N.eqb_sym (tp (qt x))), (N.eqb_sym (to_ (qt x))).
+  f_equal. destruct (qg x), (qg q); simpl; auto. apply N.eqb_sym.
+Qed.
+
+(* the first alphabet is a fragment of the widened one (set-like stores) *)
+Theorem translate_ok pl d o :
+  xstep SSet pl d (translate o) = (fst (step pl d o), XO (snd (step pl d o))).
+Proof.
+  destruct o; simpl; try reflexivity.
+  - destruct q as [t g]; unfold x_insert; simpl. destruct (ds_insert N N.eqb d (mkQ t g)); reflexivity.
+  - destruct q as [t g]; unfold x_remove; simpl. destruct (ds_remove N N.eqb d (mkQ t g)); reflexivity.
+  - unfold x_insert, dg_insert; simpl. destruct (ds_insert N N.eqb d (mkQ t g)); reflexivity.
+  - unfold x_remove, dg_remove; simpl. destruct (ds_remove N N.eqb d (mkQ t g)); reflexivity.
+  - unfold x_remove_matching, x_remove_list, dg_remove_matching, dg_remove_list, dg_remove, s_remove.
+    match goal with |- context [let '(_, _) := ?x in _] => destruct x end. reflexivity.
+Qed.
+
+Theorem hrun_old_is_run pl d ops :
+  hrun SSet pl d (map HOld ops) = map XO (run pl d ops).
+Proof.
+  revert d. induction ops as [|o ops IH]; intros d; simpl; auto.
+  destruct (step pl d o) as [d' r]. rewrite IH. reflexivity.
+Qed.
+
+(* where a mutation through nested views lands *)
+Theorem x_insert_lands sk d gs t :
+  match lands gs with
+  | Some g => x_insert sk d gs t = (fst (s_insert sk d (mkQ t g)), XO (OFlag (snd (s_insert sk d (mkQ t g)))))
+              /\ x_remove sk d gs t = (fst (s_remove sk d (mkQ t g)), XO (OFlag (snd (s_remove sk d (mkQ t g)))))
+  | None => x_insert sk d gs t = (d, XOnlyDefault) /\ x_remove sk d gs t = (d, XO (OFlag false))
+  end.
+Proof.
+  unfold x_insert, x_remove. destruct (lands gs) as [g|]; [|split; reflexivity].
+  destruct (s_insert sk d (mkQ t g)), (s_remove sk d (mkQ t g)). split; reflexivity.
+Qed.
+
+Theorem lands_spec g rest :
+  lands (g :: rest) = if forallb is_default rest then Some g else None.
+Proof. reflexivity. Qed.
+
+Example lands_examples :
+  lands [Some 12] = Some (Some 12) /\ lands [Some 12; None; None] = Some (Some 12)
+  /\ lands [Some 12; Some 4] = None /\ lands [None; None; Some 1] = None.
+Proof. repeat split. Qed.
+
+(* set-like stores: through graph_mut(g) it is the model of the first alphabet *)
+Theorem x_insert_set_direct d g t :
+  x_insert SSet d [g] t = (fst (dg_insert N N.eqb d g t), XO (OFlag (snd (dg_insert N N.eqb d g t))))
+  /\ x_remove SSet d [g] t = (fst (dg_remove N N.eqb d g t), XO (OFlag (snd (dg_remove N N.eqb d g t)))).
+Proof. apply (x_insert_lands SSet d [g] t). Qed.
+
+(* bulk insertion through a view = the fold of single insertions, counting the true flags *)
+Theorem x_insert_all_is_fold sk g l : forall d n,
+  x_insert_all sk d (map (fun t => ([g], t)) l) n =
+  let r := fold_left (fun acc t => let '(d', b) := s_insert sk (fst acc) (mkQ t g) in
+                                   (d', if b then snd acc + 1 else snd acc)) l (d, n) in
+  (fst r, XO (OCount (snd r))).
+Proof.
+  induction l as [|t l IH]; intros d n; simpl; auto.
+  unfold x_insert; simpl. destruct (s_insert sk d (mkQ t g)) as [d' b]. apply IH.
+Qed.
+Theorem x_remove_all_is_fold sk g l : forall d n,
+  x_remove_all sk d (map (fun t => ([g], t)) l) n =
+  let r := fold_left (fun acc t => let '(d', b) := s_remove sk (fst acc) (mkQ t g) in
+                                   (d', if b then snd acc + 1 else snd acc)) l (d, n) in
+  (fst r, XO (OCount (snd r))).
+Proof.
+  induction l as [|t l IH]; intros d n; simpl; auto.
+  unfold x_remove; simpl. destruct (s_remove sk d (mkQ t g)) as [d' b]. apply IH.
+Qed.
+(* an item addressed to a named graph of a graph-as-dataset view stops the bulk insertion there *)
+Theorem x_insert_all_stops sk d gs t rest n :
+  lands gs = None -> x_insert_all sk d ((gs, t) :: rest) n = (d, XOnlyDefault).
+Proof. intros H. simpl. unfold x_insert. rewrite H. reflexivity. Qed.
+
+(* bag stores (Vec): views stay coherent as multisets *)
+Theorem bag_insert_view d g t g' :
+  hop_triples (fst (s_insert SBagAll d (mkQ t g))) (HGraph g') =
+  hop_triples d (HGraph g') ++ (if gname_eqb N N.eqb g g' then [t] else [])
+  /\ hop_triples (fst (s_insert SBagAll d (mkQ t g))) HUnion = hop_triples d HUnion ++ [t]
+  /\ snd (s_insert SBagAll d (mkQ t g)) = true.
+Proof.
+  simpl. unfold dg_triples, union_triples, ds_quads_matching, one_g. simpl.
+  rewrite filter_app, !map_app. simpl. repeat split.
+  destruct (gname_eqb N N.eqb g g'); reflexivity.
+Qed.
+Lemma bag_remove_pred (t : tt) (g g' : option N) (q : tq) :
+  negb (quad_eqb N N.eqb (mkQ t g) q) && gname_eqb N N.eqb (qg q) g' =
+  gname_eqb N N.eqb (qg q) g' && (if gname_eqb N N.eqb g g' then negb (triple_eqb N N.eqb t (qt q)) else true).
+Proof.
+  unfold quad_eqb. cbn [qt qg].
+  destruct (gname_eqb N N.eqb (qg q) g') eqn:E; [|apply andb_false_r].
+  apply (gname_eqb_spec N N.eqb N_eqb_spec') in E. rewrite E.
+  destruct (gname_eqb N N.eqb g g'), (triple_eqb N N.eqb t (qt q)); reflexivity.
+Qed.
+
+Theorem bag_remove_view d g t g' :
+  hop_triples (fst (s_remove SBagAll d (mkQ t g))) (HGraph g') =
+  (if gname_eqb N N.eqb g g' then filter (fun x => negb (triple_eqb N N.eqb t x)) (hop_triples d (HGraph g'))
+   else hop_triples d (HGraph g'))
+  /\ snd (s_remove SBagAll d (mkQ t g)) = true.
+Proof.
+  split; [|reflexivity].
+  simpl. rewrite !(dg_content N N.eqb). rewrite filter_filter.
+  rewrite (filter_ext _ _ (bag_remove_pred t g g')).
+  destruct (gname_eqb N N.eqb g g').
+  - rewrite map_filter_comm, filter_filter. reflexivity.
+  - f_equal. apply filter_ext. intros q. apply andb_true_r.
+Qed.
+
+(* a bag whose remove deletes one copy (Vec<Gspo>): the viewed graph loses one copy, the flag tells whether *)
+Lemma gname_eqb_refl' (g : option N) : gname_eqb N N.eqb g g = true.
+Proof. apply (gname_eqb_spec N N.eqb N_eqb_spec'). reflexivity. Qed.
+Lemma gname_eqb_sym' (a b : option N) : gname_eqb N N.eqb a b = gname_eqb N N.eqb b a.
+Proof.
+  destruct (gname_eqb N N.eqb a b) eqn:E.
+  - apply (gname_eqb_spec N N.eqb N_eqb_spec') in E. subst. symmetry. apply gname_eqb_refl'.
+  - destruct (gname_eqb N N.eqb b a) eqn:E2; auto.
+    apply (gname_eqb_spec N N.eqb N_eqb_spec') in E2. subst. rewrite gname_eqb_refl' in E. discriminate.
+Qed.
+
+Lemma remove_first_view t g g' : forall d,
+  map qt (filter (fun q => gname_eqb N N.eqb (qg q) g') (fst (remove_first (mkQ t g) d))) =
+  (if gname_eqb N N.eqb g g'
+   then fst (remove_first_t t (map qt (filter (fun q => gname_eqb N N.eqb (qg q) g') d)))
+   else map qt (filter (fun q => gname_eqb N N.eqb (qg q) g') d))
+  /\ snd (remove_first (mkQ t g) d) =
+     existsb (triple_eqb N N.eqb t) (map qt (filter (fun q => gname_eqb N N.eqb (qg q) g) d)).
+Proof.
+  induction d as [|x d [IH1 IH2]]; cbn [remove_first filter map fst snd existsb].
+  - destruct (gname_eqb N N.eqb g g'); split; reflexivity.
+  - unfold quad_eqb. cbn [qt qg].
+    destruct (remove_first (mkQ t g) d) as [r' b]. cbn [fst snd] in *.
+    destruct (triple_eqb N N.eqb t (qt x)) eqn:Et; destruct (gname_eqb N N.eqb g (qg x)) eqn:Eg;
+      cbn [andb fst snd filter map].
+    + (* the head is the quad removed *)
+      apply (gname_eqb_spec N N.eqb N_eqb_spec') in Eg. subst g. rewrite gname_eqb_refl'.
+      cbn [map existsb]. rewrite Et. cbn [orb]. split; [|reflexivity].
+      destruct (gname_eqb N N.eqb (qg x) g') eqn:E; cbn [map remove_first_t]; [rewrite Et|]; reflexivity.
+    + rewrite (gname_eqb_sym' (qg x) g), Eg. split; [|assumption].
+      destruct (gname_eqb N N.eqb (qg x) g') eqn:E; cbn [map]; [|assumption].
+      rewrite IH1. destruct (gname_eqb N N.eqb g g') eqn:E2; [|reflexivity].
+      apply (gname_eqb_spec N N.eqb N_eqb_spec') in E, E2. subst. rewrite gname_eqb_refl' in Eg. discriminate.
+    + apply (gname_eqb_spec N N.eqb N_eqb_spec') in Eg. subst g. rewrite gname_eqb_refl'.
+      cbn [map existsb]. rewrite Et. cbn [orb]. split; [|assumption].
+      destruct (gname_eqb N N.eqb (qg x) g') eqn:E; cbn [map remove_first_t]; [|assumption].
+      rewrite Et, IH1. destruct (remove_first_t t (map qt (filter (fun q => gname_eqb N N.eqb (qg q) g') d))). reflexivity.
+    + rewrite (gname_eqb_sym' (qg x) g), Eg. split; [|assumption].
+      destruct (gname_eqb N N.eqb (qg x) g') eqn:E; cbn [map]; [|assumption].
+      rewrite IH1. destruct (gname_eqb N N.eqb g g') eqn:E2; [|reflexivity].
+      apply (gname_eqb_spec N N.eqb N_eqb_spec') in E, E2. subst. rewrite gname_eqb_refl' in Eg. discriminate.
+Qed.
+
+Theorem bagone_remove_view d g t g' :
+  hop_triples (fst (s_remove SBagOne d (mkQ t g))) (HGraph g') =
+  (if gname_eqb N N.eqb g g' then fst (remove_first_t t (hop_triples d (HGraph g'))) else hop_triples d (HGraph g'))
+  /\ snd (s_remove SBagOne d (mkQ t g)) = gr_contains N N.eqb (hop_triples d (HGraph g)) t.
+Proof.
+  cbn [hop_triples s_remove]. rewrite !(dg_content N N.eqb). unfold gr_contains. apply remove_first_view.
+Qed.
+
+(* ---------- set-like stores: the bulk mutations of the widened alphabet ---------- *)
+Lemma s_insert_set_spec d q :
+  (forall x, In x (fst (s_insert SSet d q)) <-> In x d \/ x = q)
+  /\ (NoDup d -> NoDup (fst (s_insert SSet d q))).
+Proof.
+  unfold s_insert. destruct (ds_insert N N.eqb d q) as [d' b] eqn:E.
+  apply (ds_insert_spec N N.eqb N_eqb_spec') in E. simpl. tauto.
+Qed.
+Lemma s_remove_set_spec d q :
+  (forall x, In x (fst (s_remove SSet d q)) <-> In x d /\ x <> q)
+  /\ (NoDup d -> NoDup (fst (s_remove SSet d q))).
+Proof.
+  unfold s_remove. destruct (ds_remove N N.eqb d q) as [d' b] eqn:E.
+  apply (ds_remove_spec N N.eqb N_eqb_spec') in E. simpl. tauto.
+Qed.
+
+Lemma x_remove_quads_spec qs : forall d n,
+  let r := fold_left (fun acc q => let '(d', b) := s_remove SSet (fst acc) q in
+                                   (d', if b then S (snd acc) else snd acc)) qs (d, n) in
+  (forall x, In x (fst r) <-> In x d /\ ~ In x qs) /\ (NoDup d -> NoDup (fst r)).
+Proof.
+  induction qs as [|q qs IH]; intros d n.
+  - cbn [fold_left fst]. split; [intros x; simpl; tauto | auto].
+  - cbn [fold_left fst snd]. pose proof (s_remove_set_spec d q) as [H1 H2].
+    destruct (s_remove SSet d q) as [d1 b]. cbn [fst] in H1, H2.
+    specialize (IH d1 (if b then S n else n)). cbv zeta in *. destruct IH as [I1 I2]. split.
+    + intros x. rewrite I1, H1. simpl. intuition (subst; auto).
+    + auto.
+Qed.
+
+Lemma x_remove_list_as_quads sk g l : forall d,
+  x_remove_list sk d g l = x_remove_quads sk d (map (fun t => mkQ t g) l).
+Proof.
+  unfold x_remove_list, x_remove_quads. generalize O.
+  induction l as [|t l IH]; intros n d; simpl; auto.
+  destruct (s_remove sk d (mkQ t g)) as [d1 b]. apply IH.
+Qed.
+
+(* MutableDataset::remove_matching / retain_matching on the store *)
+Theorem xd_remove_matching_effect d sm pm om gm :
+  let d' := fst (xd_remove_matching SSet d sm pm om gm) in
+  (forall q, In q d' <-> In q d /\ (triple_matches N sm pm om (qt q) && gm (qg q)) = false)
+  /\ (NoDup d -> NoDup d').
+Proof.
+  unfold xd_remove_matching, x_remove_quads.
+  pose proof (x_remove_quads_spec (ds_quads_matching N d sm pm om gm) d O) as [H1 H2]. simpl in *.
+  split; auto. intros q. rewrite H1. unfold ds_quads_matching. rewrite filter_In.
+  destruct (triple_matches N sm pm om (qt q) && gm (qg q)); intuition congruence.
+Qed.
+Theorem xd_retain_matching_effect d sm pm om gm :
+  let d' := xd_retain_matching SSet d sm pm om gm in
+  (forall q, In q d' <-> In q d /\ (triple_matches N sm pm om (qt q) && gm (qg q)) = true)
+  /\ (NoDup d -> NoDup d').
+Proof.
+  unfold xd_retain_matching, x_remove_quads.
+  set (victims := filter (fun q => negb (triple_matches N sm pm om (qt q) && gm (qg q))) d).
+  pose proof (x_remove_quads_spec victims d O) as [H1 H2]. simpl in *.
+  split; auto. intros q. rewrite H1. unfold victims. rewrite filter_In.
+  destruct (triple_matches N sm pm om (qt q) && gm (qg q)); simpl; intuition congruence.
+Qed.
+
+(* every reachable state of a mixed history over both alphabets is duplicate-free *)
+Lemma x_insert_nodup d gs t : NoDup d -> NoDup (fst (x_insert SSet d gs t)).
+Proof.
+  intros Hn. unfold x_insert. destruct (lands gs) as [g|]; auto.
+  pose proof (s_insert_set_spec d (mkQ t g)) as [_ H]. destruct (s_insert SSet d (mkQ t g)). simpl in *. auto.
+Qed.
+Lemma x_remove_nodup d gs t : NoDup d -> NoDup (fst (x_remove SSet d gs t)).
+Proof.
+  intros Hn. unfold x_remove. destruct (lands gs) as [g|]; auto.
+  pose proof (s_remove_set_spec d (mkQ t g)) as [_ H]. destruct (s_remove SSet d (mkQ t g)). simpl in *. auto.
+Qed.
+Lemma x_insert_all_nodup items : forall d n, NoDup d -> NoDup (fst (x_insert_all SSet d items n)).
+Proof.
+  induction items as [|[gs t] items IH]; intros d n Hn; simpl; auto.
+  pose proof (x_insert_nodup d gs t Hn) as H. destruct (x_insert SSet d gs t) as [d' [[b| | | |]|]]; simpl in *; auto.
+Qed.
+Lemma x_remove_all_nodup items : forall d n, NoDup d -> NoDup (fst (x_remove_all SSet d items n)).
+Proof.
+  induction items as [|[gs t] items IH]; intros d n Hn; simpl; auto.
+  pose proof (x_remove_nodup d gs t Hn) as H. destruct (x_remove SSet d gs t) as [d' [[b| | | |]|]]; simpl in *; auto.
+Qed.
+
+Lemma x_remove_quads_nodup d qs : NoDup d -> NoDup (fst (x_remove_quads SSet d qs)).
+Proof. intros Hn. apply (x_remove_quads_spec qs d O). assumption. Qed.
+Lemma x_remove_list_nodup d g l : NoDup d -> NoDup (fst (x_remove_list SSet d g l)).
+Proof. intros Hn. rewrite x_remove_list_as_quads. apply x_remove_quads_nodup. assumption. Qed.
+
+Lemma xstep_nodup pl d x : NoDup d -> NoDup (fst (xstep SSet pl d x)).
+Proof.
+  intros Hn. destruct x; cbn [xstep fst]; auto.
+  - apply x_insert_nodup; auto.
+  - apply x_remove_nodup; auto.
+  - apply x_insert_all_nodup; auto.
+  - apply x_remove_all_nodup; auto.
+  - unfold x_remove_matching.
+    pose proof (x_remove_list_nodup d g (dg_matching N N.eqb d g (mdesc_t sm) (mdesc_t pm) (mdesc_t om)) Hn) as H.
+    destruct (x_remove_list SSet d g (dg_matching N N.eqb d g (mdesc_t sm) (mdesc_t pm) (mdesc_t om))). exact H.
+  - unfold x_retain_matching. apply x_remove_list_nodup; auto.
+  - unfold xd_remove_matching.
+    pose proof (x_remove_quads_nodup d (ds_quads_matching N d (mdesc_t sm) (mdesc_t pm) (mdesc_t om) (gdesc_g gm)) Hn) as H.
+    destruct (x_remove_quads SSet d (ds_quads_matching N d (mdesc_t sm) (mdesc_t pm) (mdesc_t om) (gdesc_g gm))). exact H.
+  - unfold xd_retain_matching. apply x_remove_quads_nodup; auto.
+Qed.
+
+Lemma hstep_nodup pl d h : NoDup d -> NoDup (fst (hstep SSet pl d h)).
+Proof.
+  intros Hn. destruct h as [o|x]; simpl.
+  - pose proof (step_nodup pl d o Hn). destruct (step pl d o). assumption.
+  - apply xstep_nodup; assumption.
+Qed.
+
+Fixpoint hfinal (pl : pool) (d : dataset N) (ops : list hist_op) : dataset N :=
+  match ops with [] => d | o :: ops' => hfinal pl (fst (hstep SSet pl d o)) ops' end.
+
+Theorem hreachable_nodup pl init ops :
+  NoDup (hfinal pl (fold_left (fun d q => fst (s_insert SSet d q)) init []) ops).
+Proof.
+  assert (H0 : forall d, NoDup d -> NoDup (fold_left (fun d q => fst (s_insert SSet d q)) init d)).
+  { induction init as [|q init IH]; simpl; intros d Hd; auto. apply IH, s_insert_set_spec, Hd. }
+  assert (H : forall d, NoDup d -> NoDup (hfinal pl d ops)).
+  { induction ops as [|o ops IH]; simpl; intros d Hd; auto. apply IH, hstep_nodup, Hd. }
+  apply H, H0. constructor.
+Qed.
+
+(* non-vacuity of the widened alphabet: a view of a view of a view, a landing and a non-landing
+   mutation, a bulk insertion stopped by a named graph, on a set and on a bag *)
+Example widened_nonvacuous :
+  hrun SSet [] [] [HNew (XIns [Some 9; None] (mkT 1 2 3)); HNew (XIns [Some 9; Some 4] (mkT 1 2 3));
+                   HNew (XIns [None] (mkT 1 2 3)); HNew (XIns [Some 9; None; None] (mkT 1 2 3));
+                   HNew (XGObs [HGraph (Some 9); HUnion] (HGraph None) GOAll);
+                   HNew (XGObs [HGraph (Some 9)] (HGraph (Some 9)) GOAll);
+                   HNew (XDObs [HUnion] (DOContains (mkQ (mkT 1 2 3) None)));
+                   HNew (XInsAll [([None; None], mkT 4 5 6); ([None; Some 4], mkT 7 8 9); ([None], mkT 7 8 9)]);
+                   HOld QUnionAll]
+  = [XO (OFlag true); XOnlyDefault; XO (OFlag true); XO (OFlag false);
+     XO (OTriples [mkT 1 2 3]); XO (OTriples []); XO (OFlag true); XOnlyDefault;
+     XO (OTriples [mkT 1 2 3; mkT 1 2 3; mkT 4 5 6])]
+  /\ hrun SBagAll [] [] [HOld (DInsert (mkQ (mkT 1 2 3) None)); HOld (VInsert None (mkT 1 2 3));
+                       HOld QUnionAll; HOld (VRemove None (mkT 1 2 3)); HOld QUnionAll]
+  = [XO (OFlag true); XO (OFlag true); XO (OTriples [mkT 1 2 3; mkT 1 2 3]); XO (OFlag true); XO (OTriples [])].
+Proof. split; vm_compute; reflexivity. Qed.
